@@ -341,6 +341,9 @@ struct World {
     client: WebSocketClient,
     seen: Arc<Mutex<Vec<Vec<u8>>>>,
     next_id: u64,
+    /// further registered peers that never read (the `bcastm` world)
+    #[allow(dead_code)]
+    idle_peers: Vec<RawConn>,
     observer_bad: Arc<Mutex<Vec<String>>>,
 }
 
@@ -517,7 +520,16 @@ async fn make_world(cfg: &str, upstream: SocketAddr) -> Result<World, String> {
             });
         }
     }
-    let mut w = World { limit, srv: RawConn::connect(srv_addr, chop).await?, srv2: RawConn::connect(srv_addr, 0).await?, proxy: RawConn::connect(proxy_addr, chop).await?, registry, reports, client, seen, next_id: 1 << 40, observer_bad };
+    let mut w = World { limit, srv: RawConn::connect(srv_addr, chop).await?, srv2: RawConn::connect(srv_addr, 0).await?, proxy: RawConn::connect(proxy_addr, chop).await?, registry, reports, client, seen, next_id: 1 << 40, idle_peers: Vec::new(), observer_bad };
+    if cfg == "65536" {
+        for _ in 0..MANY_PEERS {
+            let mut c = RawConn::connect(srv_addr, 0).await?;
+            let id = w.fresh();
+            c.send(&RawFrame::request(id, false, 1, b"/ping", 2, b"null")).await?;
+            c.recv_until(id).await?;
+            w.idle_peers.push(c);
+        }
+    }
     // one round trip on each connection: the server's connect hooks (registry insert) have run
     let id = w.fresh();
     w.srv.send(&RawFrame::request(id, false, 1, b"/ping", 2, b"null")).await?;
@@ -553,7 +565,9 @@ struct Spec {
     blen: usize,
 }
 
-const FRAME_PATHS: &[&str] = &["inline", "off", "joff", "push", "pushoff", "pushn", "pushrun", "bcast", "bcastj", "bcastu", "proxy"];
+const FRAME_PATHS: &[&str] = &["inline", "off", "joff", "push", "pushoff", "pushn", "pushrun", "bcast", "bcastj", "bcastu", "bcastm", "proxy"];
+/// idle peers registered next to the two observed ones in the `bcastm` world (a broadcast with many peers)
+const MANY_PEERS: usize = 12;
 
 /// Length of the run on the `pushrun` / `batchrun` kinds (from the id: on the op line, so a replay is exact).
 fn run_len(id: u64) -> usize {
@@ -708,8 +722,8 @@ async fn run_frame(w: &mut World, s: &Spec) -> CaseResult {
     let path = s.kind.as_str();
     let seed = fnv(s.idx.as_bytes());
     let intended = 48 + s.qlen + s.blen;
-    let is_notify = matches!(path, "push" | "pushoff" | "pushn" | "pushrun" | "bcast" | "bcastj" | "bcastu");
-    let copies = if path == "pushrun" { run_len(s.id) } else if path.starts_with("bcast") { 2 } else { 1 };
+    let is_notify = matches!(path, "push" | "pushoff" | "pushn" | "pushrun" | "bcast" | "bcastj" | "bcastu" | "bcastm");
+    let copies = if path == "pushrun" { run_len(s.id) } else if path == "bcastm" { 2 + MANY_PEERS } else if path.starts_with("bcast") { 2 } else { 1 };
     let is_bcast = path.starts_with("bcast");
     // 1 in 4 of the handler-made responses is an error response of the handler's own
     let own_ec: u32 = if matches!(path, "inline" | "off" | "proxy") && seed % 4 == 0 { if seed % 8 == 0 { 4096 } else { 5 } } else { 0 };
@@ -773,14 +787,14 @@ async fn run_frame(w: &mut World, s: &Spec) -> CaseResult {
                     return Err(format!("push request {} answered id {} ec {} body {}", rid, r.h.id, r.h.ec, String::from_utf8_lossy(&r.body[..r.body.len().min(60)])));
                 }
             }
-            "bcast" | "bcastj" | "bcastu" => {
+            "bcast" | "bcastj" | "bcastu" | "bcastm" => {
                 let method = String::from_utf8(exp_query.clone()).unwrap();
                 let res = match path {
                     "bcastj" => w.registry.broadcast_notify_json(&method, &"x".repeat(s.blen - 2)).map_err(|e| format!("broadcast_notify_json: {e}"))?,
                     "bcastu" => w.registry.broadcast_notify_utf8(&method, "u".repeat(s.blen)),
                     _ => w.registry.broadcast_notify_raw(&method, BodyFormat::RawBinary, &exp_body),
                 };
-                if res.len() != 2 || !res.values().all(|r| r.is_ok()) {
+                if res.len() != (if path == "bcastm" { 2 + MANY_PEERS } else { 2 }) || !res.values().all(|r| r.is_ok()) {
                     return Err(format!("broadcast reached {} peers, results {:?}", res.len(), res.values().collect::<Vec<_>>()));
                 }
             }
@@ -1123,6 +1137,11 @@ fn gen_specs(rng: &mut Rng, thorough: bool) -> Vec<Spec> {
         if !matches!(cfg.as_str(), "1024" | "4096" | "-") {
             kinds.retain(|k| !TWIN_KINDS.contains(k));
         }
+        if cfg == "65536" {
+            kinds.retain(|k| !matches!(*k, "bcast" | "bcastj" | "bcastu"));
+        } else {
+            kinds.retain(|k| *k != "bcastm");
+        }
         if cfg_ocap(cfg).is_some() {
             kinds.retain(|k| !matches!(*k, "pushn" | "pushrun" | "bcast" | "bcastj" | "bcastu") && !CLIENT_KINDS.contains(k));
         }
@@ -1260,7 +1279,7 @@ fn gen_specs(rng: &mut Rng, thorough: bool) -> Vec<Spec> {
         }
         // far over a small limit AND over the transport's write buffer (128 KiB)
         if matches!(cfg.as_str(), "1024" | "4096" | "65536" | "200") {
-            for k in ["inline", "bcast", "call", "notify", "push", "proxy"] {
+            for k in ["inline", if cfg == "65536" { "bcastm" } else { "bcast" }, "call", "notify", "push", "proxy"] {
                 id += 1;
                 specs.push(Spec { idx: String::new(), kind: k.to_string(), cfg: cfg.clone(), limit: *lim, id, qlen: 5, blen: 200_000 + rng.below(5000) as usize });
             }
